@@ -502,28 +502,30 @@ impl<K: EnrKey> Enr<K> {
 
     /// Allows setting the sequence number to an arbitrary value.
     pub fn set_seq(&mut self, seq: u64, key: &K) -> Result<(), Error> {
-        let prev_seq = self.seq;
-        self.seq = seq;
+        // We work on this new version, allowing us to not mutate self on error.
+        let mut new_enr = self.clone();
+        new_enr.seq = seq;
+
+        // add the new public key
+        let public_key = key.public();
+        let mut pubkey = BytesMut::new();
+        public_key.encode().as_ref().encode(&mut pubkey);
+        new_enr
+            .content
+            .insert(public_key.enr_key(), pubkey.freeze());
 
         // sign the record
-        let prev_signature = match self.sign(key) {
-            Ok(signature) => signature,
-            Err(e) => {
-                self.seq = prev_seq;
-                return Err(e);
-            }
-        };
+        new_enr.sign(key)?;
+
+        // update the node id
+        new_enr.node_id = NodeId::from(key.public());
 
         // check the size of the record
-        if self.size() > MAX_ENR_SIZE {
-            self.seq = prev_seq;
-            self.signature = prev_signature;
+        if new_enr.size() > MAX_ENR_SIZE {
             return Err(Error::ExceedsMaxSize);
         }
 
-        // update the node id
-        self.node_id = NodeId::from(key.public());
-
+        *self = new_enr;
         Ok(())
     }
 
